@@ -494,7 +494,18 @@ class GraphBuilder:
         nodes, _vars = gb._all_nodes_and_vars()
         nodes_and_vars = nodes + _vars
 
-        model = Model(nodes_and_vars, grow=False, copy=copy)
+        try:
+            model = Model(nodes_and_vars, grow=False, copy=copy)
+        except Exception:
+            # a rejected build must not leave the model's seed inputs on the nodes
+            for node in nodes:
+                _detach_model_seed_input(node)
+            raise
+
+        if copy:
+            # the model holds copies, the builder's own nodes stay reusable
+            for node in nodes:
+                _detach_model_seed_input(node)
 
         if not copy:
             self.nodes.clear()
